@@ -641,6 +641,37 @@ Qed.
 
 #[local] Hint Rewrite fadd_q fsub_q round9_q tick_of_q cmp_lt_q cmp_gt_q cmp_ge_q : qt.
 
+(* facts about the cells and prefix sums of the two integer arrays (nb_bins, countin), with their
+   side conditions discharged, so that the arithmetic goals are plain linear problems *)
+Ltac sat_cell d k N :=
+  lazymatch goal with
+  | _ : psum d (k + 1) = psum d k + to_int (nthZ d k) |- _ => fail
+  | _ => let R := fresh "R" in
+         assert (R : 0 <= k < zlen d) by (autorewrite with zlen; lia);
+         pose proof (nonneg_nth_int d k N); pose proof (psum_succ d k R); pose proof (psum_succ_le d k N R)
+  end.
+Ltac sat_psum d k N :=
+  lazymatch goal with
+  | _ : psum d k <= sum_int d |- _ => fail
+  | _ => let R := fresh "R" in
+         assert (R : 0 <= k <= zlen d) by (autorewrite with zlen; lia);
+         pose proof (psum_nonneg d k N R); pose proof (psum_le d k N R)
+  end.
+Ltac saturate :=
+  repeat match goal with
+         | N : nonneg_ints ?d |- context [nthZ ?d ?k] => sat_cell d k N
+         | N : nonneg_ints ?d, _ : context [nthZ ?d ?k] |- _ => sat_cell d k N
+         | N : nonneg_ints ?d |- context [psum ?d ?k] => sat_psum d k N
+         | N : nonneg_ints ?d, _ : context [psum ?d ?k] |- _ => sat_psum d k N
+         end;
+  repeat match goal with
+         | N : nonneg_ints ?d |- _ =>
+             lazymatch goal with
+             | _ : psum d 0 = 0 |- _ => fail
+             | _ => pose proof (psum_0 d); pose proof (psum_all d); pose proof (nonneg_sum d N)
+             end
+         end.
+
 Lemma k_jitcount_computes_model_2h : forall ts ep h fuel,
   Forall (fun I => fst I <= snd I) ep -> 0 < h ->
   match run fuel k_jitcount (jitcount_args ts ep (2 * h)) with
@@ -664,11 +695,17 @@ Proof.
   vc k_jitcount ann_func.
   1: apply rwc_contract; assumption.
   all: try solve [arith].
+  all: split_cnt_inv; fold_psum; autorewrite with zlen in *.
   all: try match goal with
-         | |- (_ <= _)%Z => solve [arr_arith]
-         | |- (_ < _)%Z => solve [arr_arith]
-         | |- (_ <= _ <= _)%Z => solve [arr_arith]
-         | |- @eq Z _ _ => solve [arr_arith]
+         | H : _ <= psum (zeros DInt ?n (VInt 0)) _ |- _ => pose proof (nonneg_zeros n); pose proof (sum_int_zeros n)
+         end.
+  all: saturate; autorewrite with zlen in *.
+  all: try match goal with
+         | |- (_ < _)%Z => lia
+         | |- (_ <= _ <= _)%Z => lia
+         | |- 0 <= psum _ 0 => rewrite psum_0; lia
+         | |- (_ <= _)%Z => lia
+         | |- @eq Z _ _ => lia
          end.
   (* simple structural goals *)
   all: try match goal with
@@ -686,9 +723,9 @@ Proof.
          end.
   all: repeat match goal with
          | Hc : context [to_flt (nthZ (qcells ?l) ?k)] |- _ =>
-             rewrite (nth_qcells l k) in Hc by (first [arith | arr_arith])
+             rewrite (nth_qcells l k) in Hc by (autorewrite with zlen; lia)
          | |- context [to_flt (nthZ (qcells ?l) ?k)] =>
-             rewrite (nth_qcells l k) by (first [arith | arr_arith])
+             rewrite (nth_qcells l k) by (autorewrite with zlen; lia)
          end.
   all: unfold binop_flt in *.
   all: repeat (progress (cbn [eval_unop eval_cmp to_flt is_flt orb] in *; autorewrite with qt in * )).
@@ -698,7 +735,6 @@ Proof.
          end.
   all: try exact I.
   all: try match goal with
-         | |- 0 <= psum _ 0 => rewrite psum_0; lia
          | |- Some (qtick _) = Some (qtick _) => f_equal; f_equal; unfold lbz, Jitrestrict_func.sk; lia
          end.
   (* loop 1: the number of bins of interval k *)
@@ -708,9 +744,9 @@ Proof.
          | |- nonneg_ints (updZ _ _ (VInt (cdiv ?x _))) =>
              apply nonneg_updZ; [assumption | pose proof (cdiv_pos B h HB Hh x ltac:(lia)); lia]
          | |- Inv1 _ _ (_ + 1) (updZ _ _ (VInt 1)) =>
-             apply T1_step; [assumption | arith | symmetry; apply nbz_le; unfold Jitrestrict_func.sk, Jitrestrict_func.ek; lia]
+             apply T1_step; [assumption | lia | symmetry; apply nbz_le; unfold Jitrestrict_func.sk, Jitrestrict_func.ek; lia]
          | |- Inv1 _ _ (_ + 1) (updZ _ _ (VInt (cdiv _ _))) =>
-             apply T1_step; [assumption | arith
+             apply T1_step; [assumption | lia
                             | symmetry; apply (nbz_gt ep B h HB Hh); unfold Jitrestrict_func.sk, Jitrestrict_func.ek; lia]
          end.
   (* loop 3 / loop 4 *)
@@ -730,26 +766,26 @@ Proof.
   (* loop 6 *)
   all: try match goal with
          | I4 : Inv4 _ _ _ ?k ?b0 ?maxb ?maxt ?bi ?t ?bins ?cnt |- Inv6 _ _ ?rb ?bi ?t ?maxt ?cnt ?t ?cnt =>
-             apply (T6_init ts ep B k b0 maxb maxt bi t bins cnt rb I4); arr_arith
+             apply (T6_init ts ep B k b0 maxb maxt bi t bins cnt rb I4); lia
          | I6 : Inv6 _ _ ?rb ?bi ?t0 ?maxt ?cnt0 ?t ?cnt |- Inv6 _ _ ?rb ?bi ?t0 ?maxt ?cnt0 (?t + 1) (updZ ?cnt ?bi _) =>
-             apply (T6_step ts ep rb bi t0 maxt cnt0 t cnt I6); [lia | arr_arith | lia | arr_arith]
+             apply (T6_step ts ep rb bi t0 maxt cnt0 t cnt I6); lia
          end.
-  (* a bin is closed *)
+  (* a bin is closed: the sample loop ended with t = maxt, or on a sample at or after the right edge *)
   all: try match goal with
          | I4 : Inv4 _ _ _ ?k ?b0 ?maxb ?maxt ?bi ?t0 ?bins ?cnt0, I6 : Inv6 _ _ _ ?bi ?t0 ?maxt ?cnt0 ?t ?cnt
            |- Inv4 _ _ _ ?k ?b0 ?maxb ?maxt (?bi + 1) ?t (updZ ?bins ?bi _) ?cnt =>
              apply (T4_step ts ep B h HB k b0 maxb maxt bi t0 bins cnt0 t cnt I4);
-             [ lia | unfold Jitrestrict_func.ek; lia | exact I6 | lia | arr_arith
-             | first [left; lia | right; split; [arr_arith | lia]]
-             | arr_arith | arr_arith ]
+             [ lia | unfold Jitrestrict_func.ek; lia | exact I6 | lia | lia
+             | lazymatch goal with
+               | _ : maxt <= t |- _ => left; lia
+               | _ => right; split; lia
+               end
+             | lia | lia ]
          end.
   (* the result *)
   all: try match goal with
-         | H : _ <= psum (zeros DInt ?n (VInt 0)) _ |- _ => pose proof (nonneg_zeros n); pose proof (sum_int_zeros n)
-         end.
-  all: try match goal with
          | I3 : Inv3 _ _ _ ?k ?bi ?bins ?cnt |- _ = count_result _ =>
-             unfold count_result; apply (T_final ts ep B k bi bins cnt I3); arr_arith
+             unfold count_result; apply (T_final ts ep B k bi bins cnt I3); lia
          end.
 Qed.
 
